@@ -38,19 +38,30 @@ pub uninterp spec fn addr_id<A>(a: Addr<A>) -> int;
 /// one message handed to one actor
 pub ghost struct Eff { pub to: int, pub msg: Msg }
 pub open spec fn sent<A, M>(to: Addr<A>, m: M) -> Eff { Eff { to: addr_id(to), msg: msg_of(m) } }
-pub tracked struct VxLog { pub ghost s: Seq<Eff>, pub ghost replies: Seq<ReplyVal> }
+pub tracked struct VxLog { pub ghost s: Seq<Eff> }
+/// the reply log of a function flagged `replies` (a second ghost parameter, only of those functions)
+pub tracked struct VxReplies { pub ghost r: Seq<ReplyVal> }
 #[verifier::external_body]
 pub fn vx_note<A, M>(to: &Addr<A>, m: M, Tracked(log): Tracked<&mut VxLog>) -> (r: M)
-    ensures r == m, final(log).s == old(log).s.push(sent(*to, m)), final(log).replies == old(log).replies
+    ensures r == m, final(log).s == old(log).s.push(sent(*to, m))
 { m }
 /// T17 (reply log, flag `replies`): the answers a function got to the messages it sent with `send(..).await`, in order
-pub ghost enum ReplyVal { Index(Result<anyhow::Result<RaftIndexResponse>, MailboxError>), Other }
+pub ghost enum ReplyVal {
+    Index(Result<anyhow::Result<RaftIndexResponse>, MailboxError>),
+    Log(Result<anyhow::Result<RaftLogResponse>, MailboxError>),
+    Snapshot(Result<anyhow::Result<RaftSnapshotResponse>, MailboxError>),
+    Other,
+}
+pub broadcast axiom fn axiom_reply_val_log(r: Result<anyhow::Result<RaftLogResponse>, MailboxError>)
+    ensures #[trigger] reply_val(r) == ReplyVal::Log(r);
+pub broadcast axiom fn axiom_reply_val_snapshot(r: Result<anyhow::Result<RaftSnapshotResponse>, MailboxError>)
+    ensures #[trigger] reply_val(r) == ReplyVal::Snapshot(r);
 pub uninterp spec fn reply_val<R>(r: R) -> ReplyVal;
 pub broadcast axiom fn axiom_reply_val_index(r: Result<anyhow::Result<RaftIndexResponse>, MailboxError>)
     ensures #[trigger] reply_val(r) == ReplyVal::Index(r);
 #[verifier::external_body]
-pub fn vx_reply<R>(r: R, Tracked(log): Tracked<&mut VxLog>) -> (o: R)
-    ensures o == r, final(log).s == old(log).s, final(log).replies == old(log).replies.push(reply_val(r))
+pub fn vx_reply<R>(r: R, Tracked(log): Tracked<&mut VxReplies>) -> (o: R)
+    ensures o == r, final(log).r == old(log).r.push(reply_val(r))
 { r }
 
 /// a membership message is its list of node ids (the capacity of the Vec that carries it is not part of the message)
@@ -112,7 +123,6 @@ pub struct McpManager { pub vx_opaque: u8 }
 pub struct NamingActor { pub vx_opaque: u8 }
 pub struct DirectCacheManager { pub vx_opaque: u8 }
 pub struct RaftIndexManager { pub vx_opaque: u8 }
-pub struct RaftSnapshotManager { pub vx_opaque: u8 }
 pub struct SnapshotWriterActor { pub vx_opaque: u8 }
 pub struct ConfigQueryParam { pub vx_opaque: u8 }
 pub struct ConfigHistoryParam { pub vx_opaque: u8 }
@@ -209,7 +219,7 @@ pub enum RaftLogManagerAsyncRequest {
     Load { start: u64, end: u64, loader: Arc<LogRecordLoaderInstance> },
 }
 /// model of raftlog::RaftLogResponse restricted to the answers the storage boundary looks at
-pub enum RaftLogResponse { None, LastLogIndex(LogIndexInfo) }
+pub enum RaftLogResponse { None, QueryResult(Vec<LogRecordDto>), LastLogIndex(LogIndexInfo) }
 impl Message for RaftLogManagerAsyncRequest { type Result = anyhow::Result<RaftLogResponse>; }
 /// a replay request is (first index, end index, the loader's wiring) — which Arc carries the loader is not part of the message
 pub uninterp spec fn load_msg(start: u64, end: u64, loader: LogRecordLoaderInstance) -> Msg;
@@ -255,6 +265,11 @@ impl SnapshotReader {
         r is Ok ==> snap_hdr(disk_at_open(path@)) == Some(r.unwrap().hdr()) && r.unwrap().remaining() == snap_recs(disk_at_open(path@)),
         // >>abstract
     { unimplemented!() }
+    /// `reader.header` (field read of the real struct; the reader is modelled opaquely here)
+    #[verifier::external_body]
+    pub fn vx_into_header(self) -> (r: SnapshotHeaderDto)
+        ensures r == self.hdr()
+    { unimplemented!() }
     #[verifier::external_body]
     pub fn get_header(&self) -> (r: &SnapshotHeaderDto)
         ensures *r == self.hdr()
@@ -275,6 +290,20 @@ impl SnapshotReader {
     { unimplemented!() }
 }
 
+/// `&v[0..k]`: the first k elements of a slice
+#[verifier::external_body]
+pub fn vx_prefix<T>(s: &[T], k: usize) -> (r: &[T])
+    requires k <= s@.len()
+    ensures r@ == s@.take(k as int)
+{ &s[0..k] }
+/// std::fs::remove_file: removing a file of the snapshot directory has no effect any contract here talks about
+pub mod vx_std_fs { 
+    use vstd::prelude::*;
+    verus! {
+    #[verifier::external_body]
+    pub fn remove_file(path: String) -> (r: Result<(), crate::std_io_shim::IoError>) { unimplemented!() }
+    }
+}
 // ---- the RaftStorage boundary (FileStore): what async-raft calls
 impl Message for StateApplyRequest { type Result = anyhow::Result<StateApplyResponse>; }
 impl Message for StateApplyAsyncRequest { type Result = anyhow::Result<StateApplyResponse>; }
@@ -316,6 +345,13 @@ pub enum RaftLogManagerRequest {
 impl Message for RaftLogManagerRequest { type Result = anyhow::Result<RaftLogResponse>; }
 pub assume_specification<T: std::default::Default + std::marker::Destruct, E: std::marker::Destruct>[ std::result::Result::<T, E>::unwrap_or_default ](r: std::result::Result<T, E>) -> (o: T)
     ensures r matches Ok(v) ==> o == v;
+impl Default for LogRecordDto {
+    #[verifier::external_body]
+    fn default() -> (r: Self) ensures r.index == 0, r.term == 0, r.value@.len() == 0 { unimplemented!() }
+}
+pub struct SnapshotWriterResponse { pub vx_opaque: u8 }
+pub enum SnapshotWriterRequest { Record(SnapshotRecordDto), Flush }
+impl Message for SnapshotWriterRequest { type Result = anyhow::Result<SnapshotWriterResponse>; }
 /// async-raft's InitialState, reduced to its fields
 pub struct InitialState { pub last_log_index: u64, pub last_log_term: u64, pub last_applied_log: u64, pub hard_state: HardState, pub membership: MembershipConfig }
 impl InitialState {
